@@ -476,6 +476,9 @@ class CohGen:
         r = self.r
         pool = [S.T('int'), S.T('double'), S.T('size_t'), S.T('bool')] + ([S.T('string')] if self.target == 'pybind' else [])
         pool += [t for c, t in self.visible_classes() if c['template'] is None and c['copyable'] and c['default_ctor']][:3]
+        if self.f['stl_vector']:
+            # an instantiation value that is itself a template-id
+            pool.append(S.T('vector', ('std',), (S.T(r.choice(['int', 'double'])),)))
         lst = r.sample(pool, min(len(pool), r.choice([1, 2, 2, 3])))
         seen = set()
         lst = [t for t in lst if not (t.name.lower() in seen or seen.add(t.name.lower()))]
